@@ -105,7 +105,7 @@ impl Property for C01 {
         }
     }
     fn required_classes(&self) -> Vec<&'static str> {
-        vec!["nesting>=2", "bound<=0-reached", "shadowing", "let-in-loop-body", "loop-in-while", "reads-device", "repeat", "bits()", "bits(k>=33)", "bits(0)", "planted-error-statements", "row-in-loop-after-error-item", "names-sub-profile", "rows-after-malformed-answer", "empty-loop-body", "planted-bound-that-cannot-be-evaluated-again", "planted-variable-first-bound-in-a-while-body"]
+        vec!["nesting>=2", "bound<=0-reached", "shadowing", "let-in-loop-body", "loop-in-while", "reads-device", "repeat", "bits()", "bits(k>=33)", "bits(0)", "planted-error-statements", "row-in-loop-after-error-item", "names-sub-profile", "rows-after-malformed-answer", "empty-loop-body", "planted-bound-that-cannot-be-evaluated-again", "planted-variable-first-bound-in-a-while-body", "planted-while-of-whiles"]
     }
     fn assumptions(&self) -> Vec<&'static str> {
         vec![
@@ -205,6 +205,48 @@ impl Property for C01 {
             }
             built.analysis = analyse(&built.prog);
             out.class("planted-variable-first-bound-in-a-while-body");
+        }
+        // In a sixth of the cases: `let wa = 0;` `let wt = 0;` / `while((wa < 3))` / `while((wt = 0))` `let wt = 1;` `end
+        // while` / `while(wt)` `let wa = (wa + 1);` `let wt = 0;` `end while` / `end while` / a row showing (wa). The
+        // outer body holds nothing but the two inner `while`s - no row, no `let` of its own; it runs three times all the
+        // same (what the inner bodies bind is bound in the enclosing scope: `while` opens none), and the row shows 3.
+        if pch.chance(1, 6) {
+            use crate::model::*;
+            let id = built.prog.row_count();
+            let mut first_input = true;
+            let es: Vec<Entry> = built
+                .cols
+                .iter()
+                .map(|c| {
+                    if c.role == ColRole::ExpectedOnly {
+                        Entry::X(true)
+                    } else if first_input && c.min_bits >= 3 {
+                        first_input = false;
+                        Entry::Paren(Expr::var("wa"))
+                    } else {
+                        Entry::Num(0, Radix::Dec)
+                    }
+                })
+                .collect();
+            let at = pch.upto(built.prog.stmts.len() + 1);
+            let g = |e: Expr| Expr::Group(Box::new(e));
+            let new = vec![
+                Stmt::Let("wa".into(), Expr::lit(0)),
+                Stmt::Let("wt".into(), Expr::lit(0)),
+                Stmt::While(
+                    g(Expr::bin(BinOp::Lt, g(Expr::var("wa")), g(Expr::lit(3)))),
+                    vec![
+                        Stmt::While(g(Expr::bin(BinOp::Eq, g(Expr::var("wt")), g(Expr::lit(0)))), vec![Stmt::Let("wt".into(), Expr::lit(1))]),
+                        Stmt::While(g(Expr::var("wt")), vec![Stmt::Let("wa".into(), g(Expr::bin(BinOp::Add, g(Expr::var("wa")), g(Expr::lit(1))))), Stmt::Let("wt".into(), Expr::lit(0))]),
+                    ],
+                ),
+                Stmt::Row(id, es),
+            ];
+            for (k, st) in new.into_iter().enumerate() {
+                built.prog.stmts.insert(at + k, st);
+            }
+            built.analysis = analyse(&built.prog);
+            out.class("planted-while-of-whiles");
         }
         let text = built_text(&built);
         let spec = gen_spec(
